@@ -27,6 +27,24 @@ def classify(it, a):
     return "fresh", str(a[0])
 
 
+def arg_mutation_rule(an: Analysis, rep, rule: str, entries, versions=((3, 10),)):
+    """The R12.1 obligation alone, for sharing: no store / mutating call on an object that may alias an argument of the given API entries."""
+    rep.rule(rule, "no mutation of an object that may alias an API argument", 1)
+    n = 0
+    for entry in entries:
+        for V in versions:
+            it, _ = an.interp(entry, V)
+            for m in it.mutations:
+                n += 1
+                bad = [d for k, d in (classify(it, a) for a in sorted(m["targets"], key=str)) if k == "argument"]
+                if bad:
+                    node = it.node_index[m["node"]]
+                    rep.add(rule, f"{m['fn']}::{norm_src(node)}", False, loc(an.prog.module(m["module"]), node),
+                            f"{m['kind']} reached from API entry {entry}: target " + "; ".join(bad) + " - the caller's object is changed, so a second operation on the same start value sees something else",
+                            config=f"{entry}@{vname(V)}")
+    rep.add(rule, "arguments of the API entries are left as they were", True, "code_data/", f"{n} store / mutating-call sites in the closures of {list(entries)} examined", nontrivial=False)
+
+
 def run(an: Analysis, rep):
     rep.explanation = (
         "Effect/alias analysis over the closures of the five public API methods, per interpreter version: every store, del, "
@@ -100,6 +118,8 @@ def run(an: Analysis, rep):
                      "normalize": "code_data::CodeData.normalize", "from_code": "code_data::CodeData.from_code"}[entry]).module.relpath,
                     ("result shares mutable state: " + "; ".join(shared[:3])) if shared
                     else f"{n_obj} abstract objects reachable from the result, all allocated during the call", config=cfg)
+    from .common import purity
+    rep.run(purity, an, rep, "R12.P", list(API))
     rep.run(r127, an, rep)
     rep.run(r128, an, rep)
     from .common import SharedRules
